@@ -5,7 +5,7 @@ ROOT="$(cd "$(dirname "$0")" && pwd)"
 export CARGO_NET_OFFLINE=true CARGO_TARGET_DIR="$ROOT/target" CARGO_TERM_COLOR=never
 mkdir -p "$ROOT/evidence" "$ROOT/work"
 [ -f "$ROOT/harness/Cargo.lock" ] || cp /repo/Cargo.lock "$ROOT/harness/Cargo.lock"
-( cd "$ROOT/harness" && cargo build --offline -p verif -p gen )
+( cd "$ROOT/harness" && cargo build --offline -p verif -p gen -p vdirect )
 # pre-build the quick-tier generated crate for the default seed (checks rebuild it when the seed or /repo changes)
 dir="$ROOT/work/gen-quick"; mkdir -p "$dir"
 "$ROOT/target/debug/gen" --seed "${VERIF_SEED:-1}" --count "${VERIF_PROGRAMS:-120}" --out "$dir" --harness "$ROOT/harness" --name gsub-quick
